@@ -954,7 +954,11 @@ func (x *vConnRun) closeEvidence(c *vConnC, pre vConnScan, preHolds map[int]bool
 			}
 		}
 		if !executed {
-			x.report("C18:will-not-executed", fmt.Sprintf("will %d (%s) of %s connection %d (registered at position %d of %d) shows no effect after Close(): %s", w.tok, w.typ, vConnKindName(c.kind), c.idx, i+1, len(c.wills), why))
+			sig := "C18:will-not-executed"
+			if c.kind == 't' {
+				sig = "C18:will-not-executed-text" // the text protocol's wills are a separate code path (commandHandlerLock / TextServerProtocol.Close)
+			}
+			x.report(sig, fmt.Sprintf("will %d (%s) of %s connection %d (registered at position %d of %d) shows no effect after Close(): %s", w.tok, w.typ, vConnKindName(c.kind), c.idx, i+1, len(c.wills), why))
 			continue
 		}
 		if x.toks[w.tok] == nil {
